@@ -433,7 +433,18 @@ fn moduli(n: usize, bits: usize) -> Vec<Limbs> {
             }
         }
     }
-    // top limb = mask of the width (largest modulus top limb that fits)
+    // SHORT moduli: fewer significant limbs than the type has (m < 2^(64 len) for every len < n)
+    for len in 1..n {
+        let g = golden(len);
+        let mut shorts: Vec<Limbs> = vec![vec![u64::MAX; len], g.iter().map(|x| x | 1).collect(), { let mut v = vec![0u64; len]; v[0] = 1; v[len - 1] |= 1 << 62; v }];
+        if len == 1 {
+            shorts.extend([vec![3], vec![0xffff_ffff_ffff_ffc5]]);
+        }
+        for mut m in shorts {
+            m.resize(n, 0);
+            out.push(m);
+        }
+    }
     out.sort();
     out.dedup();
     out
@@ -476,7 +487,7 @@ fn operands(m: &Limbs, rich: bool) -> Vec<Limbs> {
 }
 
 fn c11(r: &Runner) {
-    r.set_rule("for every N in 1..=16: moduli m = (low, middle..., top) with low in {1,3,2^63+1,2^64-1}, middle limbs all-0 / all-MAX / alternating, top in {1,2,2^62-2,2^62-1,2^62,2^63-2,2^63-1,2^63,2^63+1,2^64-1} (below, at and above both carry thresholds); N = 1: all odd m in [3,255] and the one-limb boundary alphabet; operands a, b from {0,1,2,m-1,m-2,m/2,R mod m,...} plus run-shaped limb patterns and one-limb perturbations of m, reduced below m; the full product a x b per modulus; algorithms::{mul_redc,square_redc} and Uint::{mul_redc,square_redc} at BITS in {64N, 64N-1, 64N-63}. inv is computed by the harness. SOLVED universe (N = 2..8): for each modulus (the above plus structureless limbs and the BN254 / BLS12-381 / 2^255-19 primes) and each odd first limb b0 of b, a is solved so that the accumulator after the first round is m + j*2^64 (largest quotient digit in the next round, intermediate result >= m), with 4 fills of the upper limbs of b (incl. all-zero), both operand orders; plus all pairs of ordinary-looking operands. Every case is non-trivial; the hook counters state how often the carry / final-subtraction paths were reached");
+    r.set_rule("for every N in 1..=16: moduli m = (low, middle..., top) with low in {1,3,2^63+1,2^64-1}, middle limbs all-0 / all-MAX / alternating, top in {1,2,2^62-2,2^62-1,2^62,2^63-2,2^63-1,2^63,2^63+1,2^64-1} (below, at and above both carry thresholds), and SHORT moduli with 1..N-1 significant limbs (all-ones, structureless, 2^62-based; 3 and 2^64-59 in one limb); N = 1: all odd m in [3,255] and the one-limb boundary alphabet; operands a, b from {0,1,2,m-1,m-2,m/2,R mod m,...} plus run-shaped limb patterns and one-limb perturbations of m, reduced below m; the full product a x b per modulus; algorithms::{mul_redc,square_redc} and Uint::{mul_redc,square_redc} at BITS in {64N, 64N-1, 64N-63}. inv is computed by the harness. SOLVED universe (N = 2..8): for each modulus (the above plus structureless limbs and the BN254 / BLS12-381 / 2^255-19 primes) and each odd first limb b0 of b, a is solved so that the accumulator after the first round is m + j*2^64 (largest quotient digit in the next round, intermediate result >= m), with 4 fills of the upper limbs of b (incl. all-zero), both operand orders; plus all pairs of ordinary-looking operands. Every case is non-trivial; the hook counters state how often the carry / final-subtraction paths were reached");
     for n in 1..=16usize {
         for bits in [64 * n, 64 * n - 1, 64 * n - 63] {
             if bits == 0 {
@@ -587,7 +598,7 @@ fn c11_solved(r: &Runner) {
             }
             // ordinary operands: all pairs (incl. a = b) of structureless / decimal / byte-pattern values below m
             let g = golden(2 * n);
-            let mut ops: Vec<BigUint> = vec![big(&g[..n].to_vec()), big(&g[n..].to_vec()), big(&vec![0x0101_0101_0101_0101u64; n]), "1".repeat(19 * n).parse().unwrap(), &bm - BigUint::from(10_000_000_019u64), (&bm >> 1) + 12345u32];
+            let mut ops: Vec<BigUint> = vec![big(&g[..n].to_vec()), big(&g[n..].to_vec()), big(&vec![0x0101_0101_0101_0101u64; n]), "1".repeat(19 * n).parse().unwrap(), if bm > BigUint::from(10_000_000_019u64) { &bm - BigUint::from(10_000_000_019u64) } else { &bm - 1u32 }, (&bm >> 1) + 12345u32];
             for o in ops.iter_mut() {
                 *o = &*o % &bm;
             }
@@ -1004,7 +1015,7 @@ fn c14(r: &Runner) {
             let d = (row << 55) | (off40 << 24) | if part < 16 { 0 } else { 0xff_ffff };
             let e = (u128::MAX / d as u128 - (1u128 << 64)) as u64;
             n += 1;
-            if alg::div::reciprocal(d) != e {
+            if vharness::runner::guarded(|| alg::div::reciprocal(d)) != Ok(e) {
                 k::exec(l, 64, K::reciprocal, &[V::N(d as u128)]);
             }
         }
@@ -1033,7 +1044,7 @@ fn c14(r: &Runner) {
                 let d = (p40 << 24) | low;
                 let e = (u128::MAX / d as u128 - (1u128 << 64)) as u64;
                 n += 1;
-                if alg::div::reciprocal(d) != e {
+                if vharness::runner::guarded(|| alg::div::reciprocal(d)) != Ok(e) {
                     k::exec(l, 64, K::reciprocal, &[V::N(d as u128)]);
                 }
             }
@@ -1251,7 +1262,7 @@ fn c15(r: &Runner) {
                 k::exec(l, 0, K::addmul_nx1, &[vu(s), vu(a), V::N(w as u128)]);
                 k::exec(l, 0, K::submul_nx1, &[vu(s), vu(a), V::N(w as u128)]);
             }
-            for c in [0u64, 1] {
+            for c in [0u64, 1, 2, 0x9000_0000_0000_0000, u64::MAX - 1, u64::MAX] {
                 k::exec(l, 0, K::adc_n, &[vu(s), vu(a), V::N(c as u128)]);
                 k::exec(l, 0, K::sbb_n, &[vu(s), vu(a), V::N(c as u128)]);
             }
@@ -1294,7 +1305,7 @@ fn c15(r: &Runner) {
         for s in &sl {
             for a in &sl {
                 l.states(1);
-                for c in [0u64, 1] {
+                for c in [0u64, 1, 2, 0x9000_0000_0000_0000, u64::MAX - 1, u64::MAX] {
                     k::exec(l, 0, K::adc_n, &[vu(s), vu(a), V::N(c as u128)]);
                     k::exec(l, 0, K::sbb_n, &[vu(s), vu(a), V::N(c as u128)]);
                 }
